@@ -546,6 +546,10 @@ func ctrlAlphabet() []ctrlCall {
 		{"Get(head)", off("get", func(st *ctrlState) int64 { return st.headMid })},
 		{"Get(newest)", off("get", func(st *ctrlState) int64 { return klevdb.OffsetNewest })},
 		{"GetByKey(b)", func(cr *concRun, st *ctrlState) *cOp { return &cOp{Kind: "getbykey", Key: []byte("b")} }},
+		{"GetByKey(old)", func(cr *concRun, st *ctrlState) *cOp { return &cOp{Kind: "getbykey", Key: []byte("old")} }},
+		{"ConsumeByKey(old)", func(cr *concRun, st *ctrlState) *cOp {
+			return &cOp{Kind: "consumebykey", Key: []byte("old"), Off: klevdb.OffsetOldest, Max: 40}
+		}},
 		{"GetByTime(first)", func(cr *concRun, st *ctrlState) *cOp {
 			return &cOp{Kind: "getbytime", T: 1}
 		}},
@@ -610,6 +614,9 @@ func ctrlPrimaries(alpha []ctrlCall) []ctrlPrimary {
 		p("Consume(head)", "below", 1, "reader.afterIndex", "reader.afterGetMessages"),
 		p("Get(reader)", "gc", 1, "reader.getIndex.beforeLoad", "reader.getMessages.beforeLoad"),
 		p("GetByKey(b)", "gc", 1, "reader.getIndex.beforeLoad", "reader.getMessages.beforeLoad"),
+		p("GetByKey(old)", "gc", 1, "reader.getIndex.beforeLoad", "reader.getMessages.beforeLoad"),
+		p("GetByKey(old)", "gc", 2, "reader.getIndex.beforeLoad"),
+		p("ConsumeByKey(old)", "gc", 1, "reader.getIndex.beforeLoad", "reader.getMessages.beforeLoad"),
 		p("GetByTime(first)", "gc", 1, "reader.getIndex.beforeLoad", "reader.getMessages.beforeLoad"),
 		p("ConsumeByKey(a)", "gc", 1, "reader.getIndex.beforeLoad", "reader.getMessages.beforeLoad"),
 		p("GC", "below", 1, "reader.gc.afterCloseIndex"),
@@ -631,7 +638,9 @@ var ctrlEpilogues = [][]string{
 // below or above the rollover threshold.
 func (cr *concRun) buildPreset(kind string) *ctrlState {
 	st := &ctrlState{}
-	o := cr.seqOp(cr.pubOp(99, 4, true)) // > rollover: next publish rolls
+	first := cr.pubOp(99, 4, true) // > rollover: next publish rolls
+	first.Pub[1].Key = []byte("old") // a key that only lives in the oldest segment: lookups walk all the way down
+	o := cr.seqOp(first)
 	st.readerFirst, st.readerMid, st.readerLast = o.Next-4, o.Next-3, o.Next-1
 	o = cr.seqOp(cr.pubOp(99, 3, true))
 	st.reader2First = o.Next - 3
